@@ -123,14 +123,18 @@ Definition all_some {A} (l : list (option A)) : option (list A) :=
 Definition dotZQ (g : list Z) (u : list Q) : Q := sumQ (map2 (fun a b => inject_Z a * b)%Q g u).
 (** genomemat[ph,ind,st:sp].dot(u_a[st:sp,i]) *)
 Definition block_val (g : list Z) (ucol : list Q) (st sp : nat) : Q := dotZQ (slice st sp g) (slice st sp ucol).
-Definition hmat_t := list (list (list (list (option Q)))).      (* [phase][individual][block][trait] *)
-(** numpy.empty((m,n,nhaploblk,t)) then hmat[:,:,j,i] = ... for j, (st,sp) in enumerate(zip(hstix, hspix)) *)
-Definition hmat_of (nhap nt : nat) (geno : list (list (list Z))) (u : list (list Q)) (bounds : list (nat * nat)) : hmat_t :=
-  map (fun phm => map (fun g => map (fun j => map (fun i =>
+Definition cand_t := list (list (option Q)).                      (* one chromosome copy: [block][trait] *)
+Definition hmat_t := list (list cand_t).                          (* [phase][individual][block][trait] *)
+(** numpy.empty((m,n,nhaploblk,t)) then hmat[:,:,j,i] = ... for j, (st,sp) in enumerate(zip(hstix, hspix)):
+    block j of a copy is written only when a j-th run exists *)
+Definition cand_of (nhap nt : nat) (u : list (list Q)) (bounds : list (nat * nat)) (g : list Z) : cand_t :=
+  map (fun j => map (fun i =>
         match nth_error bounds j with
         | Some (st, sp) => Some (block_val g (col 0%Q i u) st sp)
         | None => None
-        end) (seq 0 nt)) (seq 0 nhap)) phm) geno.
+        end) (seq 0 nt)) (seq 0 nhap).
+Definition hmat_of (nhap nt : nat) (geno : list (list (list Z))) (u : list (list Q)) (bounds : list (nat * nat)) : hmat_t :=
+  map (map (cand_of nhap nt u bounds)) geno.
 
 Section Haplomat.
 Context {T : Type} (O : ops T).
@@ -174,7 +178,6 @@ Fixpoint xmap_from (uniq : bool) (k st n : nat) : list (list nat) :=
 Definition calc_xmap (ntaxa nparent : nat) (uniq : bool) : list (list nat) := xmap_from uniq nparent 0 ntaxa.
 
 (** ** optimal haploid value:  ploidy * haplomat[:,xconfig,:,:].max((0,2)).sum(1) *)
-Definition cand_t := list (list (option Q)).                      (* one chromosome copy: [block][trait] *)
 (** all (phase, parent) copies designated by a parent tuple *)
 Definition cands (hm : hmat_t) (parents : list nat) : list cand_t :=
   flat_map (fun phm => map (fun d => nth d phm []) parents) hm.
@@ -233,13 +236,22 @@ Definition hmat_eqb : hmat_t -> hmat_t -> bool := list_eqb (list_eqb (list_eqb (
 Definition oql_agree := list_eqb oq_agree.
 Definition oqll_agree := list_eqb oql_agree.
 Definition natll_eqb := list_eqb natl_eqb.
-(** boundaries produced by the binary64 linspace are non-decreasing, start at lo and end at hi (checked per case) *)
-Fixpoint sorted_f (l : list float) : bool :=
-  match l with [] => true | x :: r => match r with [] => true | y :: _ => PrimFloat.leb x y && sorted_f r end end.
-Definition lin_ok_f (nblk : list nat) (gp : list float) (stix spix : list nat) : bool :=
-  forallb (fun c => let '(n, (st, sp)) := c in
-                    sorted_f (linspace fops (nth st gp 0%float) (nth (sp - 1) gp 0%float) n))
-          (combine nblk (combine stix spix)).
+(** decidable hypotheses of the ordering theorems for the binary64 instance (Proofs/C18_Float.v), evaluated per case:
+    chromosomes non-empty, positions finite and sorted, >= 1 block each, linspace boundaries finite and the first
+    one not above the first marker *)
+Fixpoint sortedb (l : list float) : bool :=
+  match l with [] => true | x :: r => match r with [] => true | y :: _ => PrimFloat.leb x y && sortedb r end end.
+Definition chrom_ok_b (c : list float) : bool :=
+  match c with [] => false | _ => forallb PrimFloat.is_finite c && sortedb c end.
+Definition bounds_ok_b (n : nat) (c : list float) : bool :=
+  let hb := linspace fops (hd 0%float c) (last c 0%float) n in
+  forallb PrimFloat.is_finite hb && PrimFloat.leb (hd 0%float hb) (hd 0%float c).
+Fixpoint lin_hyp_f (nblk : list nat) (chrs : list (list float)) : bool :=
+  match nblk, chrs with
+  | n :: nb, c :: cs => (1 <=? n)%nat && chrom_ok_b c && bounds_ok_b n c && lin_hyp_f nb cs
+  | [], [] => true
+  | _, _ => false
+  end.
 (** weighted OHV latentfn of the real/integer/binary problems:  -((1/x.sum()) * x) . ohvmat  (exact value) *)
 Definition ohv_latent_w (nt : nat) (ohv : list (list (option Q))) (w : list Q) : list (option Q) :=
   map (fun t => option_map (fun s => - (s / sumQ w))%Q
